@@ -320,7 +320,9 @@ func replayMulti(idx int, c *MCase, mode string, out *[]Mismatch) {
 	if mode == "multi-apply" {
 		// C12: ONE operator value applied to the real first source AND to a decoy source; the pipeline over the real source must not be
 		// influenced by the later application
-		opv, ok := BuildMultiOp(c.M.G, srcs[1:])
+		// the other sources are handed over as a slice with SPARE CAPACITY (rest...): an operator that inserts in place would write into the caller's array
+		rest := append(make([]ro.Observable[any], 0, len(srcs)+4), srcs[1:]...)
+		opv, ok := BuildMultiOp(c.M.G, rest)
 		if !ok {
 			return
 		}
